@@ -355,6 +355,44 @@ class ValidateNodeNameMap(Contract):
         return out
 
 
+VE = "funtracks.import_export._validation.validate_edge_name_map"
+
+
+class ValidateEdgeNameMap(Contract):
+    """same column check for the edge mapping (no required keys, no position clause)"""
+    qualname = VE
+    props = ("C12",)
+
+    def run(self, I, cfg):
+        from pyvc.values import exc_names
+        ctx = I.ctx
+        M = KeyedNameMap(ctx)
+        P = Importable(ctx)
+        I.ext["model.val_isinstance"] = lambda I_, a, k: {"list": is_VOpq(a[0].e), "str": is_VKey(a[0].e)}[a[1]]
+        I.ext["model.val_iter"] = lambda I_, a, k: M.list_view(a[0])
+        I.ext["model.val_len"] = lambda I_, a, k: Sym(M.LL(ov(a[0].e)))
+        ctx.contracts[VS] = SpatialDimsAssumed()
+        outer = VOuter(M, P)
+        ctx.loopspecs[(VE, 0)] = outer
+        ctx.loopspecs[(VE, 1)] = VInner(M, P, outer)
+        feats = None if cfg.get("features") == "none" else Sym(ctx.fresh("available_features", Val))
+        if feats is not None:
+            ctx.assume(z3.Not(is_VNone(feats.e)))
+        out = call_real(I, VE, [M, P], {"available_features": feats, "ndim": Sym(ctx.fresh("ndim", Int))})
+        q = "C12/validate_edge_name_map"
+        i3, j3 = z3.Ints("i!v j!v")
+        if out[0] == "raise":
+            ctx.oblige(f"{q}/raises-only-ValueError", z3.BoolVal("ValueError" in exc_names(out[1])), props=self.props, note=str(out[1]))
+            return out
+        ctx.oblige(f"{q}/ensures:accepted=>every-mapped-column-exists-in-the-source(string items)",
+                   IMP(P.nonempty, forall([i3], IMP(AND(0 <= i3, i3 < M.n, M.is_str(i3)), P.mem(kv(M.V(i3)))))), props=self.props)
+        ctx.oblige(f"{q}/ensures:accepted=>every-listed-column-exists-in-the-source(list items)",
+                   IMP(P.nonempty, forall([i3, j3], IMP(AND(0 <= i3, i3 < M.n, M.is_list(i3), 0 <= j3, j3 < M.LL(ov(M.V(i3)))),
+                                                         P.mem(M.CC(ov(M.V(i3)), j3))))), props=self.props)
+        return out
+
+
 def units():  # noqa: F811
     from pyvc.verify import Unit
-    return [Unit(FlattenNameMap(), {}), Unit(ValidateNodeNameMap(), {"features": "none"}), Unit(ValidateNodeNameMap(), {"features": "given"})]
+    return [Unit(FlattenNameMap(), {}), Unit(ValidateNodeNameMap(), {"features": "none"}), Unit(ValidateNodeNameMap(), {"features": "given"}),
+            Unit(ValidateEdgeNameMap(), {"features": "none"}), Unit(ValidateEdgeNameMap(), {"features": "given"})]
